@@ -22,6 +22,7 @@ func init() {
 }
 
 func runC01(c *an.Ctx) {
+	libFsm1(c)
 	r01a(c)
 	r01b(c)
 	r01c(c)
